@@ -224,7 +224,7 @@ class CacheUser:
         def getter():
             _append(self.log, f"G {key} {os.getpid()}")
             for line in want:
-                time.sleep(.15)                 # slow enough for the other workers (spawned ~0.1 s apart) to arrive meanwhile
+                time.sleep(.4)                  # slow enough for the other workers (spawned a few 100 ms apart) to arrive meanwhile
                 yield line
         try:
             with CobaContext.cacher.get_set(key, getter) as f:
